@@ -233,6 +233,25 @@ fn multisets_n(ctx: &mut Ctx, conv: &Converter, n: u64) {
                 let mut fitted = grp.clone();
                 let _ = fitted.fit(conv);
                 out.push(("fit", Totals::of(conv, fitted.iter())));
+                // a group that is fitted while it is being filled: half of the quantities, fit, the other half (added one
+                // by one, or merged in as a group), fit again
+                let (first, second) = order.split_at(order.len() / 2);
+                let mut running = GroupedQuantity::empty();
+                for i in first {
+                    running.add(&qs[*i], conv);
+                }
+                let _ = running.fit(conv);
+                let mut by_merge = running.clone();
+                let mut rest = GroupedQuantity::empty();
+                for i in second {
+                    running.add(&qs[*i], conv);
+                    rest.add(&qs[*i], conv);
+                }
+                out.push(("add_fit_add", Totals::of(conv, running.iter())));
+                let _ = running.fit(conv);
+                out.push(("add_fit_add_fit", Totals::of(conv, running.iter())));
+                by_merge.merge(&rest, conv);
+                out.push(("add_fit_merge", Totals::of(conv, by_merge.iter())));
                 out
             });
             match res {
@@ -304,6 +323,55 @@ fn expected_list_model(conv: &Converter, r: &ScaledRecipe, model: &serde_json::V
         into.entry(display).or_default().merge(&t);
     }
     true
+}
+
+/// Shopping lists of hand-written recipes whose ingredient names contain what other parts of the format give a meaning
+/// to (a slash, a full stop, a file extension): listed under the name as written, each amount once.
+fn named_lists(ctx: &mut Ctx, conv: &Converter) {
+    let parser = CooklangParser::new(Extensions::all(), conv.clone());
+    // (recipes, expected: display name -> grams)
+    let cases: [(&[&str], &[(&str, f64)]); 5] = [
+        (&["Add @salt/pepper mix{10%g} and @pepper mix{20%g}."], &[("salt/pepper mix", 10.0), ("pepper mix", 20.0)]),
+        (&["Pour @Dr. Pepper{330%g}.", "Add @Dr. Oetker baking powder{15%g} and @Dr. Pepper{100%g}."], &[("Dr. Pepper", 430.0), ("Dr. Oetker baking powder", 15.0)]),
+        (&["Mix @half/half{100%g} with @half{50%g} and @No. 5 flour{1%kg}, then @&half/half{20%g}."], &[("half/half", 120.0), ("half", 50.0), ("No. 5 flour", 1000.0)]),
+        (&["Use @flour.cook{30%g} and @flour{70%g} and @a.b.c{5%g}."], &[("flour.cook", 30.0), ("flour", 70.0), ("a.b.c", 5.0)]),
+        (&["Use @@./sauces/tomato sauce{200%g} and @tomato sauce{50%g}."], &[("tomato sauce", 250.0)]),
+    ];
+    for (recipes, expected) in cases {
+        let case = Case::new("named_list", recipes.join("\n=====\n"), Extensions::all().bits(), "bundled");
+        ctx.begin(&case);
+        let res = crate::core::guarded(|| {
+            let mut list = IngredientList::new();
+            for t in recipes {
+                let Some(rec) = parser.parse(t).into_output() else { return None };
+                list.add_recipe(&rec.default_scale(), conv);
+            }
+            Some(list.iter().map(|(n, q)| (n.clone(), Totals::of(conv, q.iter()))).collect::<BTreeMap<String, Totals>>())
+        });
+        match res {
+            Err(p) => ctx.panic_violation(&case, "IngredientList::add_recipe", p),
+            Ok(None) => ctx.harness_errors.push(format!("C10: a hand-written recipe does not parse: {recipes:?}")),
+            Ok(Some(got)) => {
+                let mut bad = None;
+                for (name, grams) in expected {
+                    match got.get(*name).and_then(|t| t.known_by_table.get("mass")) {
+                        Some((lo, _)) if (lo - grams).abs() <= 1e-6 * grams => {}
+                        other => bad = Some(format!("{name:?}: expected {grams} g, the list has {other:?} (names listed: {:?})", got.keys().collect::<Vec<_>>())),
+                    }
+                }
+                if got.len() != expected.len() && bad.is_none() {
+                    bad = Some(format!("names listed {:?}, expected {:?}", got.keys().collect::<Vec<_>>(), expected.iter().map(|e| e.0).collect::<Vec<_>>()));
+                }
+                match bad {
+                    Some(m) => ctx.violation(&case, "list", "list_of_handwritten_recipes_differs", m),
+                    None => {
+                        ctx.count("named_lists_ok");
+                        ctx.nontrivial(&case);
+                    }
+                }
+            }
+        }
+    }
 }
 
 fn recipes(ctx: &mut Ctx, conv: &Converter) {
@@ -633,6 +701,9 @@ pub fn run(ctx: &mut Ctx) {
             ctx.count("multisets_with_case_differing_unit_keys");
             let _ = keep;
         }
+    }
+    if ctx.shard == 0 {
+        named_lists(ctx, &conv);
     }
     multisets(ctx, &conv);
     recipes(ctx, &conv);
